@@ -1,11 +1,65 @@
 /-
   C03 — Continuing from earlier weights equals learning everything in one pass;
   weights handed to a learner are never modified.
+
+  What is proved
+  * about the SPECIFICATION `rwLearn`: `learn_append`, `chain_eq_single` (any
+    k-way split at any positions);
+  * about the MODELS of the real code, one call: `dict_continue` (`dict_ndl`
+    from any dict), `ndl_continue` (`ndl.ndl` from any labelled matrix, new
+    labels appended, within the 32-bit limits), the hand-over conversions
+    `dict_from_data_array`, `data_array_from_dict`, `dict_roundtrip`,
+    `abs_extend`; two calls: `dict_chain_two`, `ndl_chain_two`;
+  * about the MODELS, chains of ARBITRARY length with a DIFFERENT learner per
+    part (PyndlProofs/Chain.lean; induction over the list of parts):
+      - `chainRun` models harness/impl.py `op_chain`: the state between calls
+        is `None`, a weight dict or a labelled matrix; a part is run by
+        `dict_ndl` (dict result or `make_data_array=True`) or by `ndl.ndl`
+        (threading/openmp, any chunk sizes); a matrix handed to `dict_ndl` is
+        copied cell by cell into a dict (`dictFromLW`, ndl.py:421-428), a dict
+        handed to `ndl.ndl` goes through `ndl.data_array` (`lwFromDict`, as
+        the harness does; `ndl.ndl` itself only accepts a DataArray);
+      - `chain_any_length`: every part accepted by its learner's duplicate
+        policy, legal chunk sizes for the `ndl.ndl` parts, and ONE a-priori
+        size condition on the inputs — the whole file fits the 32-bit limits
+        (`Fits32 (allEvents parts)`: number of events, of distinct cue names, of
+        distinct outcome names, cues/outcomes per event, all < 2^32) — imply
+        that the chain succeeds and its final state denotes
+        `rwLearn` from all-zero weights over the policy-processed
+        concatenation, at EVERY pair of names.  The conditions `Fits32With w es`
+        needed by `ndl_continue` for each intermediate matrix `w` are derived
+        from an invariant (`StateOK`: labels / dict keys of the state are
+        duplicate-free names occurring in the events of the chain), for which
+        it is proved that `ndl.ndl` returns old labels ++ new names
+        (`ndlModel_labels`) and `dict_ndl` creates no keys but names of its
+        events (`dictNdl_keys`);
+      - `chain_any_length_from`: the same from any given initial weights
+        (state satisfying the invariant), size conditions per part;
+      - `chain_eq_single_call`: the chain = ONE `ndl.ndl` call = ONE `dict_ndl`
+        call over the whole file (same duplicate policy everywhere; that the
+        whole file is accepted follows from the parts being accepted:
+        `policy_distributes`, `chain_policy_uniform`);
+      - `chain_split_irrelevant`: two splits / learner assignments of the same
+        file end in the same weight function.
+  What is partial
+  * partial: "inputs are not modified" — `input_preserved_partial` is trivial
+    in a functional model; aliasing inside numpy/xarray/deepcopy is decided
+    only by the differential run (snapshots before/after every call).
+  * partial: alpha is one constant for all parts and all cues (as `ndl.ndl`
+    requires; `dict_ndl` alone also takes a per-cue dict: `dict_continue`).
+  * partial: Widrow-Hoff chains (`wh.wh`) are not part of `chainRun`
+    (treated in C08).
+  * partial: the label ORDER `ndl.ndl` produces for new names (a Python `set`
+    difference, hash order) is modelled as first occurrence; the theorems
+    read results through their labels, so they do not depend on it
+    (`abs_extend` holds for any order).
 -/
 import PyndlProofs.Continue
 import PyndlProofs.Dict
 import PyndlProofs.NdlContinue
 import PyndlProofs.DictArray
+import PyndlProofs.Chain
+import PyndlModel.Generated
 
 namespace Pyndl.C03
 open Pyndl List
@@ -119,5 +173,149 @@ example :
       = rwLearn (fun _ => (1:ℤ)) 2 3 5 W (p1 ++ p2 ++ p3) 11 0
     ∧ rwLearn (fun _ => (1:ℤ)) 2 3 5 W (p1 ++ p2 ++ p3) 11 0 ≠ 0 := by
   decide +kernel
+
+/-! ## chains of arbitrary length, a different learner per part -/
+
+/-- the duplicate policy distributes over concatenation: pieces accepted one by
+    one ⇒ the concatenation is accepted, with the concatenated result -/
+theorem policy_distributes (p : DupPolicy) (pieces pieces' : List (List (Event ι κ)))
+    (h : List.Forall₂ (fun es es' => applyPolicyAll p es = some es') pieces pieces') :
+    applyPolicyAll p pieces.flatten = some pieces'.flatten :=
+  applyPolicyAll_flatten p pieces pieces' h
+
+/-- with one duplicate policy `p` for all parts: the parts are accepted one by
+    one exactly when the whole file is, and the processed events are the same -/
+theorem chain_policy_uniform (p : DupPolicy) (parts : List Part) (h : ∀ pt ∈ parts, pt.1.policy = p) :
+    chainPolicy parts = applyPolicyAll p (allEvents parts) :=
+  chainPolicy_uniform p parts h
+
+/-- **chains of ANY length, ANY learner per part.**  `parts` is the list of
+    (learner, events) as the harness runs them (`chainRun`: first call without
+    weights, every later call with what the previous call returned, converted
+    as the learner needs it).  Preconditions — all on the INPUTS:
+    * `hp`: every part is accepted by the duplicate policy of its learner
+      (otherwise the real call raises `ValueError`); `es'` is the concatenation
+      of the policy-processed parts;
+    * `hl`: every `ndl.ndl` part has `events_per_temporary_file ≥ 2` and
+      `n_outcomes_per_job ≥ 1` (otherwise `ValueError`);
+    * `hfit`: the whole file fits the 32-bit chunk format (events, distinct
+      cues, distinct outcomes, cues/outcomes per event < 2^32).
+    Conclusion: the chain succeeds, and the weight function its final state
+    denotes (dict or matrix, 0 off the labels) is the Rescorla–Wagner
+    specification from all-zero weights over `es'`, at every pair of names. -/
+theorem chain_any_length (alpha β₁ β₂ lam : R) (parts : List Part) (es' : List (Event String String))
+    (hp : chainPolicy parts = some es') (hl : ∀ pt ∈ parts, pt.1.ChunksOK)
+    (hfit : Fits32 (allEvents parts)) :
+    ∃ s, chainRun Generated.pyMagic Generated.pyVersion alpha β₁ β₂ lam none parts = .ok s ∧
+      ∀ o c, stateGet s o c = rwLearn (fun _ => alpha) β₁ β₂ lam (fun _ _ => (0 : R)) es' o c :=
+  Pyndl.chain_any_length _ _ (by decide) (by decide) alpha β₁ β₂ lam parts es' hp hl hfit
+
+/-- the same from GIVEN initial weights `s` (nothing, a dict or a matrix) whose
+    labels / keys are duplicate free (matrix) names from the lists `C`, `O`;
+    the size conditions are then: `C`, `O` have < 2^32 distinct names, and
+    every part has names from `C`, `O` and 32-bit counts (`PartFits`). -/
+theorem chain_any_length_from (C O : List String) (hC : (dedupKeepFirst C).length < 4294967296)
+    (hO : (dedupKeepFirst O).length < 4294967296) (alpha β₁ β₂ lam : R)
+    (parts : List Part) (s : Option (ChainState R)) (hs : StateOK C O s)
+    (es' : List (Event String String)) (hp : chainPolicy parts = some es')
+    (hl : ∀ pt ∈ parts, pt.1.ChunksOK) (hfit : ∀ pt ∈ parts, PartFits C O pt.2) :
+    ∃ s', chainRun Generated.pyMagic Generated.pyVersion alpha β₁ β₂ lam s parts = .ok s' ∧
+      ∀ o c, stateGet s' o c = rwLearn (fun _ => alpha) β₁ β₂ lam (stateGet s) es' o c :=
+  Pyndl.chain_any_length_stepwise _ _ (by decide) (by decide) C O hC hO alpha β₁ β₂ lam parts s hs es' hp hl hfit
+
+/-- **the chain equals ONE call over the whole file** — of `ndl.ndl` (any
+    configuration `cfg` with legal chunk sizes) and of `dict_ndl` — when all
+    parts and the single call use the duplicate policy `p`.  Preconditions as
+    in `chain_any_length`; that the single call accepts the whole file follows
+    from the parts being accepted (`chain_policy_uniform`). -/
+theorem chain_eq_single_call (alpha β₁ β₂ lam : R) (parts : List Part) (p : DupPolicy)
+    (hpol : ∀ pt ∈ parts, pt.1.policy = p)
+    (es' : List (Event String String)) (hp : chainPolicy parts = some es')
+    (hl : ∀ pt ∈ parts, pt.1.ChunksOK) (hfit : Fits32 (allEvents parts))
+    (cfg : NdlCfg) (hcp : cfg.policy = p) (hper : 2 ≤ cfg.perFile) (hjob : 1 ≤ cfg.perJob) :
+    ∃ s w W, chainRun Generated.pyMagic Generated.pyVersion alpha β₁ β₂ lam none parts = .ok s ∧
+      ndlModel Generated.pyMagic Generated.pyVersion cfg alpha β₁ β₂ lam none (allEvents parts)
+        = .ok (w, (allEvents parts).length) ∧
+      dictNdl p (fun _ => alpha) β₁ β₂ lam [] (allEvents parts) = some W ∧
+      ∀ o c, stateGet s o c = w.get o c ∧ stateGet s o c = wdAbs W o c :=
+  Pyndl.chain_eq_single_call _ _ (by decide) (by decide) alpha β₁ β₂ lam parts p hpol es' hp hl hfit cfg hcp hper hjob
+
+/-- **the split does not matter**: two splits of the same file — different
+    numbers of parts, cut positions and learners per part —, all with the
+    duplicate policy `p` which accepts the file, end in the same weight function -/
+theorem chain_split_irrelevant (alpha β₁ β₂ lam : R) (parts₁ parts₂ : List Part) (p : DupPolicy)
+    (hpol₁ : ∀ pt ∈ parts₁, pt.1.policy = p) (hpol₂ : ∀ pt ∈ parts₂, pt.1.policy = p)
+    (hsame : allEvents parts₁ = allEvents parts₂)
+    (es' : List (Event String String)) (hacc : applyPolicyAll p (allEvents parts₁) = some es')
+    (hl₁ : ∀ pt ∈ parts₁, pt.1.ChunksOK) (hl₂ : ∀ pt ∈ parts₂, pt.1.ChunksOK)
+    (hfit : Fits32 (allEvents parts₁)) :
+    ∃ s₁ s₂, chainRun Generated.pyMagic Generated.pyVersion alpha β₁ β₂ lam none parts₁ = .ok s₁ ∧
+      chainRun Generated.pyMagic Generated.pyVersion alpha β₁ β₂ lam none parts₂ = .ok s₂ ∧
+      ∀ o c, (stateGet s₁ o c : R) = stateGet s₂ o c :=
+  Pyndl.chain_split_irrelevant _ _ (by decide) (by decide) alpha β₁ β₂ lam parts₁ parts₂ p hpol₁ hpol₂ hsame
+    es' hacc hl₁ hl₂ hfit
+
+/-! non-vacuity: a chain of FOUR parts over ℤ with four different learners —
+`dict_ndl` returning a dict, `ndl.ndl` openmp (dict → matrix hand-over, new
+outcome `y`), `dict_ndl` with a DataArray in and out (matrix → dict hand-over,
+new cue `c`), `ndl.ndl` threading with two chunk files (new cue `d`, new
+outcome `z`) -/
+
+def exParts : List Part :=
+  [ (.dict .error false, [⟨["a", "b"], ["x"]⟩]),
+    (.ndl ⟨.error, .openmp, 1, 2⟩, [⟨["b"], ["x", "y"]⟩]),
+    (.dict .error true, [⟨["a", "c"], ["y"]⟩]),
+    (.ndl ⟨.error, .threading, 2, 2⟩, [⟨["c", "b"], ["x"]⟩, ⟨["a"], ["y"]⟩, ⟨["d"], ["y", "z"]⟩]) ]
+
+/-- a different split of the same file: two parts, other learners -/
+def exParts' : List Part :=
+  [ (.ndl ⟨.error, .threading, 1, 3⟩, [⟨["a", "b"], ["x"]⟩, ⟨["b"], ["x", "y"]⟩, ⟨["a", "c"], ["y"]⟩, ⟨["c", "b"], ["x"]⟩]),
+    (.dict .error false, [⟨["a"], ["y"]⟩, ⟨["d"], ["y", "z"]⟩]) ]
+
+def showState : Option (ChainState ℤ) → Option (Bool × List String × List String × Array ℤ)
+  | some (.matrix w) => some (true, w.outcomes, w.cues, w.vals)
+  | _ => none
+
+/-- the model runs: the states after 1, 2, 3 and all 4 calls -/
+example :
+    (match chainRun Generated.pyMagic Generated.pyVersion (1 : ℤ) 2 3 5 none (exParts.take 1) with
+     | .ok (some (.dict W)) => some W | _ => none) = some [("x", [("a", 10), ("b", 10)])] ∧
+    (match chainRun Generated.pyMagic Generated.pyVersion (1 : ℤ) 2 3 5 none (exParts.take 2) with
+     | .ok s => showState s | .error _ => none) = some (true, ["x", "y"], ["a", "b"], #[10, 0,  0, 10]) ∧
+    (match chainRun Generated.pyMagic Generated.pyVersion (1 : ℤ) 2 3 5 none (exParts.take 3) with
+     | .ok s => showState s | .error _ => none)
+      = some (true, ["x", "y"], ["a", "b", "c"], #[-20, 0, -30,  10, 10, 10]) ∧
+    (match chainRun Generated.pyMagic Generated.pyVersion (1 : ℤ) 2 3 5 none exParts with
+     | .ok s => showState s | .error _ => none)
+      = some (true, ["x", "y", "z"], ["a", "b", "c", "d"], #[40, 70, 40, 0,  0, -50, -50, 10,  0, 0, 0, 10]) :=
+  ⟨by decide +kernel, by decide +kernel, by decide +kernel, by decide +kernel⟩
+
+/-- … and these are the numbers of the specification over the whole file -/
+example :
+    (["x", "y", "z"].map fun o => ["a", "b", "c", "d"].map fun c =>
+      rwLearn (fun _ => (1 : ℤ)) 2 3 5 (fun _ _ => 0) (allEvents exParts) o c)
+      = [[40, 70, 40, 0], [0, -50, -50, 10], [0, 0, 0, 10]] := by
+  decide +kernel
+
+/-- the preconditions of `chain_any_length` / `chain_eq_single_call` are jointly
+    satisfiable: the example instantiates them completely -/
+example :
+    ∃ s w W, chainRun Generated.pyMagic Generated.pyVersion (1 : ℤ) 2 3 5 none exParts = .ok s ∧
+      ndlModel Generated.pyMagic Generated.pyVersion ⟨.error, .openmp, 1, 2⟩ (1 : ℤ) 2 3 5 none (allEvents exParts)
+        = .ok (w, (allEvents exParts).length) ∧
+      dictNdl .error (fun _ => (1 : ℤ)) 2 3 5 [] (allEvents exParts) = some W ∧
+      ∀ o c, stateGet s o c = w.get o c ∧ stateGet s o c = wdAbs W o c :=
+  chain_eq_single_call 1 2 3 5 exParts .error (by decide) (allEvents exParts) (by decide +kernel) (by decide)
+    ⟨by decide +kernel, by decide +kernel, by decide +kernel, by decide +kernel⟩
+    ⟨.error, .openmp, 1, 2⟩ rfl (by decide) (by decide)
+
+/-- … and so are those of `chain_split_irrelevant` (4 parts vs 2 parts) -/
+example :
+    ∃ s₁ s₂, chainRun Generated.pyMagic Generated.pyVersion (1 : ℤ) 2 3 5 none exParts = .ok s₁ ∧
+      chainRun Generated.pyMagic Generated.pyVersion (1 : ℤ) 2 3 5 none exParts' = .ok s₂ ∧
+      ∀ o c, stateGet s₁ o c = stateGet s₂ o c :=
+  chain_split_irrelevant 1 2 3 5 exParts exParts' .error (by decide) (by decide) (by decide +kernel)
+    (allEvents exParts) (by decide +kernel) (by decide) (by decide)
+    ⟨by decide +kernel, by decide +kernel, by decide +kernel, by decide +kernel⟩
 
 end Pyndl.C03
